@@ -69,6 +69,7 @@ type Case struct {
 type server struct {
 	c      *Case
 	firsts *atomic.Int64 // requests answered with the First answer (checkpoint / log-info fetches = cycles started)
+	ended  *atomic.Int64 // stalled requests that the caller's context ended (a feeder that caches its first fetch still shows its cycles here)
 }
 
 func (s server) RoundTrip(q *http.Request) (*http.Response, error) {
@@ -108,6 +109,9 @@ func (s server) RoundTrip(q *http.Request) (*http.Response, error) {
 		select {
 		case <-time.After(time.Duration(r.StallMS) * time.Millisecond):
 		case <-q.Context().Done():
+			if s.ended != nil {
+				s.ended.Add(1)
+			}
 			return nil, q.Context().Err()
 		}
 	}
@@ -191,8 +195,8 @@ func runCase(c *Case) string {
 	d := time.Duration(c.DeadlineMS) * time.Millisecond
 	ctx, cancel := context.WithTimeout(context.Background(), d)
 	defer cancel()
-	var firsts atomic.Int64
-	client := &http.Client{Transport: server{c, &firsts}, Timeout: d}
+	var firsts, ended atomic.Int64
+	client := &http.Client{Transport: server{c, &firsts, &ended}, Timeout: d}
 	if c.Kind == "distributor" {
 		dist, err := rest.NewDistributor(c.URL, client, []config.Log{cl}, v1.Verifier(), bw)
 		if err != nil {
@@ -209,7 +213,8 @@ func runCase(c *Case) string {
 		// the polling loop the service runs: it may only end when its context ends (omniwitness.Main treats
 		// its return as fatal for the whole process)
 		err = f.FeedFunc()(ctx, cl, bw, client, time.Duration(c.PollMS)*time.Millisecond)
-		return fmt.Sprintf("returned early=%v cycles=%d err=%v", ctx.Err() == nil, firsts.Load(), err)
+		// cycles started = checkpoint fetches seen, or hung requests that a cycle deadline ended, whichever is larger
+		return fmt.Sprintf("returned early=%v cycles=%d err=%v", ctx.Err() == nil, max(firsts.Load(), ended.Load()), err)
 	}
 	err = f.FeedFunc()(ctx, cl, bw, client, 0)
 	return fmt.Sprintf("returned err=%v", err)
